@@ -640,3 +640,28 @@ class _HvTreeProbe:
 @register("hyperv_tree")
 def open_hv_tree(files, opaque, p):
     return _HvTreeProbe(files, p)
+
+
+@register("envelope")
+def open_envelope(files, opaque, p):
+    import io
+
+    from dissect.hypervisor.util import envelope
+
+    f = files["img"]
+    f.seek(0)
+    img = bytearray(f.read(3 * 4096))
+    attrs = {}
+    for k, present in p["present"].items():
+        if present:
+            if k.endswith("cipherName"):
+                attrs[k] = envelope.EnvelopeAttribute(envelope.c_envelope.AttributeType.String, 0,
+                                                      "AES-256-GCM" if p["gcm"] else "AES-128-CBC")
+            else:
+                attrs[k] = envelope.EnvelopeAttribute(envelope.c_envelope.AttributeType.Bytes, 0, b"\x01" * 32)
+    s = io.BytesIO()
+    envelope._pack_attributes(s, attrs)
+    blob = s.getvalue()
+    img[512: 4096] = bytes(4096 - 512)
+    img[512: 512 + len(blob)] = blob
+    return envelope.Envelope(io.BytesIO(bytes(img)))
